@@ -42,6 +42,15 @@ entry(i) = prod_k c_k[i_k] of a tensor with all TT-ranks 1 applied to its factor
 * seed forms (C19.rand.seed_forms): int (repeatable, seed-dependent), np.random.Generator over PCG64 / MT19937 (really
   consumed), None (fresh on each call); the global NumPy state stays untouched.
 * documented default values of every constructor (C19.defaults).
+* input FORMS (C19.input_form.*): shapes as list / tuple / int64 / int32 array / list of NumPy integers / read-only view; v, scale, a, b,
+  m, s, noise as Python int / float, np.float64 / np.float32 / np.int64 / np.int32 scalars, 0-d arrays (float32 v: float32 tolerance, the
+  d-th root is taken in float32); zero lists / protected index / positions as nested lists, tuples, int32 / uint8 / int8 arrays, Fortran-
+  ordered, non-contiguous, read-only arrays, negative positions in signed dtypes, mode sizes beyond int8 / uint8; shifts as tuple / int64 /
+  int32 / float32 array / list of NumPy scalars / np.float64; powers as np.int64 / np.int32 / float; ranks as float / np.float64 scalar,
+  tuple / int32 array / list of NumPy integers; seed by keyword / positionally; q / positions / v of the QTT deltas as NumPy scalars;
+  keyword and positional calls.  POSSIBLE DEFECTS in narrow clauses (fail on the pinned tree): C19.rand.rank_numpy_scalar (r = np.int64(3)
+  -> IndexError), C19.rand.seed_numpy_int (seed = np.int64(7) -> AttributeError), C19.poly.shift_numpy_scalar (shift = np.int64(1) /
+  np.float32(1.5) -> IndexError): NumPy scalars rejected by isinstance(., (int, float)) gates.
 """
 import itertools
 import math
@@ -62,7 +71,8 @@ BOUNDS = ('const/delta: 13 shapes with d<=5, n<=4 (incl. mode size 1) + d=1 + mo
           'constructors: 8 shapes x scalar/list/ndarray ranks x seeds + d=100 / n=600, extreme a/b and m/s, seed as '
           'int/Generator/None; rand_stab d in {2..100} (1000 thorough), noise 0, 1e-300..0.5; defaults of all constructors; '
           'rand_stab noise level two-sided: 10 shapes (15 thorough, d = 2..40 (100)) x ranks 1..4 (7) and per-bond profiles x noise 1e-8..3e-2, '
-          '26..200 tensors per case')
+          '26..200 tensors per case; input forms: 6 shape forms x 4 value forms x 10 index forms (const / delta, 3 (6) shapes + modes 130..300), '
+          '8 shift forms x 4 power forms (poly), 3-4 rank forms x 5 number forms x 4 constructors, QTT deltas q in 1..62 x 8 position forms')
 
 EPS = np.finfo(float).eps
 
@@ -1010,6 +1020,327 @@ def defaults(which, seed):
     return FAIL('unknown case ' + which)
 
 
+# ----------------------------------------------------------------------------------------------------------------
+# input FORMS (f4-forms): shapes as list / tuple / int64 / int32 array / list of NumPy integers, values as Python / NumPy numbers
+# (float64, float32, int64, int32, 0-d array), index arguments as list / tuple / int32 / uint8 / int8 / Fortran / view / read-only
+
+EPS32 = float(np.finfo(np.float32).eps)
+N_FORMS = ('list', 'tuple', 'array', 'i32array', 'npints', 'F_ro')
+
+
+def _n_form(n, form):
+    n = [int(k) for k in n]
+    if form == 'tuple':
+        return tuple(n)
+    if form == 'array':
+        return np.array(n, dtype=np.int64)
+    if form == 'i32array':
+        return np.array(n, dtype=np.int32)
+    if form == 'npints':
+        return [np.int64(k) for k in n]
+    if form == 'F_ro':                       # read-only, non-contiguous int64 view
+        big = np.zeros(2 * len(n), dtype=np.int64)
+        big[::2] = n
+        a = big[::2]
+        a.flags.writeable = False
+        return a
+    return list(n)
+
+
+def _v_form(v, form):
+    """(value passed, its float64 image, eps of the arithmetic the unchanged library uses for the d-th root)"""
+    if form == 'np32' and isinstance(v, float) and float(np.float32(v)) == v:
+        return np.float32(v), float(v), EPS32        # abs(v) ** (1. / d) stays float32
+    if form == 'np32' and isinstance(v, int):
+        return np.int32(v), float(v), EPS
+    if form in ('np64', 'np32'):
+        return (np.int64(v) if isinstance(v, int) else np.float64(v)), float(v), EPS
+    if form == '0d':
+        return np.array(v), float(v), EPS
+    return v, float(v), EPS
+
+
+def _vtol_eps(v, d, eps):
+    lg = abs(math.log(abs(float(v)))) if v != 0 else 0.0
+    return 8.0 * (d + 2 + lg) * eps * abs(float(v))
+
+
+@clause('C19.input_form.const_delta', funcs=('tensors.const', 'tensors.delta'))
+def input_form_const_delta(fn, n, v, nform, vform, iform, seed, negative=False):
+    """const / delta with the shape as list / tuple / int64 / int32 array / list of NumPy integers / read-only view, v as Python
+    number, np.float64 / np.float32 / np.int64 / np.int32 scalar or 0-d array, the zero list / protected index / position as
+    nested lists, tuples, int32 / uint8 / int8 arrays, Fortran-ordered, non-contiguous or read-only arrays (gen.idx_form).
+    Reference: the float64 image of v (float32 v: the d-th root is taken in float32 by the unchanged library - float32
+    tolerance).  const: values in {v, 0}, exact 0 at every listed row, v at the protected index; delta: v at the position
+    (negative = counted from the end, signed dtypes only), exact 0 elsewhere; rank 1, float cores, arguments unchanged."""
+    n = [int(k) for k in n]
+    d = len(n)
+    g = gen.rng('C19if', fn, n, seed)
+    idx = gen.all_indices(n)
+    vv, vi, eps = _v_form(v, vform)
+    tol = _vtol_eps(vi, d, eps)
+    nn = _n_form(n, nform)
+    if fn == 'const':
+        inz = idx[int(g.integers(len(idx)))].tolist()
+        pool = [r_.tolist() for r_ in idx if r_.tolist() != inz]
+        if not pool:
+            return TRIVIAL('single-entry tensor')
+        rows = [pool[int(g.integers(len(pool)))] for _ in range(3)]
+        Iz = gen.idx_form(np.array(rows).reshape(-1, d), iform)
+        pz = gen.idx_form(np.array([inz]), iform)[0]
+        snap = gen.snapshot((Iz, pz, nn))
+        Y = teneva.const(nn, vv, Iz, pz) if seed % 2 else teneva.const(n=nn, v=vv, I_zero=Iz, i_non_zero=pz)
+        if gen.snapshot((Iz, pz, nn)) != snap:
+            return FAIL('an argument was changed')
+        msg = _rank_one(Y, n)
+        if msg:
+            return FAIL('not rank-1 / shape / float cores: ' + msg)
+        D = gen.dense(Y)
+        if vi == 0:
+            return check(bool(np.all(D == 0)), 'v=0 but non-zero entries')
+        okv = np.abs(D - vi) <= tol
+        if not np.all(okv | (D == 0)):
+            return FAIL(f'values outside {{v, 0}}: {D[~(okv | (D == 0))][:3]} (v = {vv!r})')
+        if any(D[tuple(r_)] != 0 for r_ in rows):
+            return FAIL(f'a listed zero index of {rows} is not 0')
+        return check(bool(okv[tuple(inz)]), f'protected index {inz} holds {D[tuple(inz)]!r} instead of {vv!r}')
+    pos = idx[int(g.integers(len(idx)))].tolist()
+    t0 = iform.split('+')[0]
+    if t0 in ('i8', 'u8'):                  # keep the position (or its negative spelling) inside the index dtype also for mode sizes >= 128
+        lim = 127 if t0 == 'i8' else 255
+        pos = [max(p_, k - 128) if negative else min(p_, lim) for p_, k in zip(pos, n)]
+    arg = [p_ - k for p_, k in zip(pos, n)] if negative else pos
+    if negative:
+        a = np.array(arg, dtype={'i32': np.int32, 'i8': np.int8}.get(iform.split('+')[0], np.int64))
+        if iform in ('list', 'tuple'):
+            a = gen.idx_form(np.array([pos]), iform)[0].__class__(arg)
+        elif '+' in iform or iform in ('F', 'V', 'ro'):
+            return SKIP('layout forms are exercised with non-negative positions')
+    else:
+        a = gen.idx_form(np.array([pos]), iform)[0]
+    snap = gen.snapshot((a, nn))
+    Y = teneva.delta(nn, a, vv) if seed % 2 else teneva.delta(n=nn, i=a, v=vv)
+    if gen.snapshot((a, nn)) != snap:
+        return FAIL('an argument was changed')
+    msg = _rank_one(Y, n)
+    if msg:
+        return FAIL('not rank-1 / shape / float cores: ' + msg)
+    D = gen.dense(Y)
+    got = D[tuple(pos)]
+    if vi == 0:
+        return check(bool(np.all(D == 0)), 'v=0 but non-zero entries')
+    if not abs(got - vi) <= tol:
+        return FAIL(f'position {arg}: entry {got!r} instead of {vv!r}')
+    D[tuple(pos)] = 0
+    return check(not np.any(D != 0), f'position {arg}: non-zero entries elsewhere')
+
+
+@clause('C19.input_form.poly', funcs=('tensors.poly',))
+def input_form_poly(n, shift, power, scale, nform, sform, pform, cform):
+    """poly with the shape in the forms of C19.input_form.const_delta, the shift as tuple / int64 / int32 / float32 array / list of
+    NumPy scalars / np.float64 scalar, the power as Python int / np.int64 / np.int32 / float, the scale as Python / NumPy number
+    (float32 values are exact in float64): dense == scale * sum_k (i_k + shift_k)^power of the float64 images, exact for integer
+    data, else within 16 (d + 2) eps of the sum of the moduli."""
+    n = [int(k) for k in n]
+    d = len(n)
+    sh = [float(shift)] * d if not isinstance(shift, list) else [float(x) for x in shift]
+    if sform == 'tuple':
+        sa = tuple(sh) if isinstance(shift, list) else shift
+    elif sform in ('i64', 'i32'):
+        if not all(x.is_integer() for x in sh):
+            return SKIP('integer shift array needs integer shifts')
+        sa = np.array(sh).astype(np.int64 if sform == 'i64' else np.int32)
+    elif sform == 'f32':
+        sa = np.array(sh, dtype=np.float32)
+        sh = [float(x) for x in sa]
+    elif sform == 'npscalars':
+        sa = [np.float64(x) for x in sh]
+    elif sform == 'np64scalar':
+        if isinstance(shift, list):
+            return SKIP('scalar form needs a scalar shift')
+        sa = np.float64(shift)
+    elif sform == 'V_ro':
+        big = np.zeros(2 * d)
+        big[1::2] = sh
+        sa = big[1::2]
+        sa.flags.writeable = False
+    else:
+        sa = list(sh) if isinstance(shift, list) else shift
+    pw = {'np64': np.int64(power), 'np32': np.int32(power), 'float': float(power)}.get(pform, int(power))
+    sc, sci, _ = _v_form(scale, cform)
+    nn = _n_form(n, nform)
+    Y = teneva.poly(nn, sa, pw, sc) if d % 2 else teneva.poly(n=nn, shift=sa, power=pw, scale=sc)
+    msg = gen.wf(Y, n)
+    if msg:
+        return FAIL(msg)
+    D = gen.dense(Y)
+    I = gen.all_indices(n)
+    got = D[tuple(I.T)]
+    if all(x.is_integer() for x in sh) and float(sci).is_integer():
+        want = [int(sci) * sum((int(i) + int(x)) ** int(power) for i, x in zip(row, sh)) for row in I]
+        if max(abs(w) for w in want) < 2 ** 52:
+            bad = [k for k, (w, g_) in enumerate(zip(want, got)) if not float(w) == g_]
+            return check(not bad, f'entry {I[bad[0]].tolist() if bad else None}: {got[bad[0]] if bad else None!r} != exact {want[bad[0]] if bad else None}')
+    terms = np.array([[(float(i) + x) ** int(power) for i, x in zip(row, sh)] for row in I])
+    want = sci * terms.sum(axis=1)
+    mag = abs(sci) * np.abs(terms).sum(axis=1)
+    bad = ~(np.abs(got - want) <= 16 * (d + 2) * EPS * mag + 1e-300)
+    return check(not bad.any(), f'entry {I[int(np.argmax(bad))].tolist()}: {got[int(np.argmax(bad))]!r} vs {want[int(np.argmax(bad))]!r}')
+
+
+def _r_form(r, form):
+    if isinstance(r, list):
+        return {'tuple': tuple(r), 'i32array': np.array(r, dtype=np.int32), 'array': np.array(r), 'npints': [np.int64(x) for x in r]}.get(form, list(r))
+    return {'float': float(r), 'np64float': np.float64(r)}.get(form, int(r))
+
+
+def _num(x, form):
+    if form == 'int' and float(x).is_integer():
+        return int(x)
+    if form == 'np32' and float(np.float32(x)) == float(x):
+        return np.float32(x)
+    if form in ('np64', 'np32'):
+        return np.float64(x)
+    if form == '0d':
+        return np.array(float(x))
+    return float(x)
+
+
+@clause('C19.input_form.rand', funcs=('tensors.rand', 'tensors.rand_norm', 'tensors.rand_stab', 'tensors.rand_custom'))
+def input_form_rand(fn, n, r, nform, rform, numform, seed, posseed):
+    """Random constructors with the shape in the forms of C19.input_form.const_delta, the ranks as int / float / np.float64 (scalar)
+    or list / tuple / int64 / int32 array / list of NumPy integers (per bond), the numbers a, b / m, s / noise as
+    Python int / float / np.float64 / np.float32 / 0-d array, the seed by keyword or as last positional argument: well-formed,
+    requested shape and rank profile, entries in [a, b] (rand), standardised mean within 7 / sqrt(N) (rand_norm, N >= 300),
+    identity pattern within 8 noise (rand_stab), each value drawn used once (rand_custom)."""
+    n = [int(k) for k in n]
+    nn, rr = _n_form(n, nform), _r_form(r, rform)
+    if fn == 'rand':
+        a, b = -2.0, 3.0
+        args = (nn, rr, _num(a, numform), _num(b, numform))
+    elif fn == 'rand_norm':
+        m_, s_ = 1.0, 0.5
+        args = (nn, rr, _num(m_, numform), _num(s_, numform))
+    elif fn == 'rand_stab':
+        noise = 2.0 ** -10
+        args = (nn, rr, _num(noise, numform))
+    else:
+        g = gen.rng('C19ifr', n, seed)
+        calls = []
+
+        def f(size):
+            v = g.permutation(int(size)).astype(float) + 0.5
+            calls.append(v.copy())
+            return v.astype(np.float32) if numform == 'np32' else v.tolist() if numform == 'int' else v
+        Y = teneva.rand_custom(nn, rr, f) if posseed else teneva.rand_custom(n=nn, r=rr, f=f)
+        msg = _structure(Y, n, r)
+        if msg:
+            return FAIL(msg)
+        x = np.sort(np.concatenate([G.reshape(-1) for G in Y]))
+        return check(len(calls) == 1 and np.array_equal(x, np.sort(calls[0])), 'cores are not a rearrangement of the values drawn from f')
+    F = getattr(teneva, fn)
+    Y = F(*args, seed) if posseed else F(*args, seed=seed)
+    msg = _structure(Y, n, r)
+    if msg:
+        return FAIL(msg)
+    x = np.concatenate([G.reshape(-1) for G in Y])
+    if fn == 'rand':
+        if not (x.min() >= a and x.max() <= b):
+            return FAIL(f'entries [{x.min()}, {x.max()}] outside [{a}, {b}]')
+        if x.size >= 200 and not (x.min() <= a + 1.25 and x.max() >= b - 1.25):
+            return FAIL(f'{x.size} entries cover only [{x.min()}, {x.max()}] of [{a}, {b}]')
+    elif fn == 'rand_norm':
+        z = (x - m_) / s_
+        if x.size >= 300 and not (abs(z.mean()) <= 7 / math.sqrt(x.size) and abs(z.std() - 1) <= 7 / math.sqrt(2 * x.size) + 2.0 / x.size):
+            return FAIL(f'mean {x.mean()} / std {x.std()} vs m={m_}, s={s_} (N={x.size})')
+    else:
+        dev = np.concatenate([(G - np.eye(G.shape[0], G.shape[2])[:, None, :]).reshape(-1) for G in Y])
+        if not np.abs(dev).max() <= 8 * noise:
+            return FAIL(f'deviation from the identity pattern {np.abs(dev).max():.3e} > 8 * noise = {8 * noise:.3e}')
+        if dev.size >= 300 and not abs(dev.std() / noise - 1) <= 7 / math.sqrt(2 * dev.size) + 2.0 / dev.size:
+            return FAIL(f'noise level {dev.std():.3e} vs requested {noise:.3e}')
+    Y2 = F(*args, seed) if not posseed else F(*args, seed=seed)
+    return check(_same(Y, Y2), 'seed given by keyword and positionally: different tensors')
+
+
+@clause('C19.input_form.qtt_delta', funcs=('vectors.vector_delta', 'matrices.matrix_delta', 'utils._vector_index_prepare',
+                                           'utils._vector_index_expand'))
+def input_form_qtt_delta(q, v, qform, iform, vform, seed):
+    """vector_delta / matrix_delta with q as np.int64 / np.int32 / np.uint8, the positions as np.int64 / np.int32 / np.int16 /
+    np.int8 / np.uint8 / np.uint16 scalars or 0-d arrays (non-negative positions that fit the dtype; negative positions only in
+    signed dtypes that can also hold 2^q), v as NumPy number, keyword call: v at the position, 0 elsewhere (bit by bit)."""
+    N = 1 << q
+    g = gen.rng('C19ifq', q, seed)
+    dt = {'i64': np.int64, 'i32': np.int32, 'i16': np.int16, 'i8': np.int8, 'u8': np.uint8, 'u16': np.uint16, '0d': np.int64}.get(iform)
+    hi = N - 1 if dt is None else min(N - 1, int(np.iinfo(dt).max))
+    P = sorted({0, hi, hi // 2, int(g.integers(0, hi + 1)), int(g.integers(0, hi + 1))})
+    if dt is None or (np.dtype(dt).kind == 'i' and N <= int(np.iinfo(dt).max)):
+        P += [-1, -N, -(N // 2) - 1 if N > 2 else -1]
+    qq = {'np64': np.int64(q), 'np32': np.int32(q), 'u8': np.uint8(q)}.get(qform, q)
+    vv, vi, _ = _v_form(v, vform)
+
+    def conv(i):
+        return i if dt is None else (np.array(i, dtype=dt) if iform == '0d' else dt(i))
+    for i in P:
+        j = P[(P.index(i) + 1) % len(P)]
+        Y = teneva.vector_delta(q=qq, i=conv(i), v=vv) if seed % 2 else teneva.vector_delta(qq, conv(i), vv)
+        msg = _rank_one(Y, [2] * q) or _delta_rank1(_vecs(Y), _bits(q, i % N), vi, 0.0)
+        if msg:
+            return FAIL(f'vector_delta(q={qq!r}, i={conv(i)!r}, v={vv!r}): ' + msg)
+        M = teneva.matrix_delta(q=qq, i=conv(i), j=conv(j), v=vv) if seed % 2 else teneva.matrix_delta(qq, conv(i), conv(j), vv)
+        if not isinstance(M, list) or len(M) != q or any(not isinstance(G, np.ndarray) or G.shape != (1, 2, 2, 1) or G.dtype.kind != 'f' for G in M):
+            return FAIL(f'matrix_delta: cores {[getattr(G, "shape", None) for G in M][:4]}')
+        pos = [2 * a_ + b_ for a_, b_ in zip(_bits(q, i % N), _bits(q, j % N))]
+        msg = _delta_rank1(_vecs(M), pos, vi, 0.0)
+        if msg:
+            return FAIL(f'matrix_delta(q={qq!r}, i={conv(i)!r}, j={conv(j)!r}, v={vv!r}): ' + msg)
+    return PASS
+
+
+@clause('C19.rand.rank_numpy_scalar', funcs=('tensors.rand', 'tensors.rand_norm', 'tensors.rand_stab', 'tensors.rand_custom'))
+def rand_rank_numpy_scalar(fn, n, r, rform):
+    """POSSIBLE DEFECT: the scalar rank given as a NumPy integer / float32 scalar (np.int64(r) - e.g. r = np.max(teneva.ranks(Y)),
+    np.int32, np.float32; the Python int, float and np.float64 - a float subclass - are accepted): well-formed tensor of the
+    requested shape with all inner ranks r.  (Pinned tree: `isinstance(r, (int, float))` is False, the 0-d array is then
+    indexed like a profile -> IndexError.)"""
+    rr = {'np64': np.int64(r), 'np32': np.int32(r), 'npf32': np.float32(r), '0d': np.array(r)}[rform]
+    Y = teneva.rand(n, rr, seed=1) if fn == 'rand' else teneva.rand_norm(n, rr, seed=1) if fn == 'rand_norm' \
+        else teneva.rand_stab(n, rr, seed=1) if fn == 'rand_stab' else teneva.rand_custom(n, rr)
+    msg = _structure(Y, n, r)
+    return FAIL(msg) if msg else PASS
+
+
+@clause('C19.rand.seed_numpy_int', funcs=('tensors.rand', 'tensors.rand_norm', 'tensors.rand_stab', 'utils._rand'))
+def rand_seed_numpy_int(fn, n, r, seed, sform):
+    """POSSIBLE DEFECT: the seed ("an integer number or a numpy Generator") given as NumPy integer (np.int64 / np.int32, e.g. the
+    loop variable of `for seed in np.arange(10)`): well-formed tensor, repeatable, different for seed + 1.  (Pinned tree:
+    utils._rand tests isinstance(seed, int) and otherwise uses the seed AS the generator -> AttributeError.)"""
+    F = getattr(teneva, fn)
+    cv = np.int64 if sform == 'np64' else np.int32
+    Y1, Y2, Y3 = F(n, r, seed=cv(seed)), F(n, r, seed=cv(seed)), F(n, r, seed=cv(seed + 1))
+    msg = _structure(Y1, n, r)
+    if msg:
+        return FAIL(msg)
+    if not _same(Y1, Y2):
+        return FAIL('same seed, different tensors')
+    return check(not _same(Y1, Y3), 'seeds s and s + 1: identical tensors')
+
+
+@clause('C19.poly.shift_numpy_scalar', funcs=('tensors.poly', 'grid.grid_prep_opt'))
+def poly_shift_numpy_scalar(n, shift, sform):
+    """POSSIBLE DEFECT: the scalar shift ("It may be also float value") given as NumPy scalar other than np.float64 (np.int64,
+    np.int32, np.float32) or 0-d array: dense == sum_k (i_k + shift)^2.  (Pinned tree: grid_prep_opt tests
+    isinstance(opt, (int, float)); the 0-d array is then indexed per mode -> IndexError.)"""
+    sa = {'np64': np.int64, 'np32': np.int32, 'npf32': np.float32, '0d': np.array}[sform](shift)
+    Y = teneva.poly(n, sa)
+    msg = gen.wf(Y, n)
+    if msg:
+        return FAIL(msg)
+    I = gen.all_indices(n)
+    want = ((I + float(shift)) ** 2).sum(axis=1)
+    return check(np.array_equal(gen.dense(Y)[tuple(I.T)], want), 'entries differ from sum_k (i_k + shift)^2')
+
+
 def cases(tier, seed):
     big = tier == 'thorough'
     g = gen.rng('C19', seed)
@@ -1210,6 +1541,75 @@ def cases(tier, seed):
             for bitgen in ('pcg', 'mt') if big or len(n) == 3 else ('pcg',):
                 for sd in (0, rs()) + ((rs(), 2 ** 40 + 7) if big else ()):
                     yield 'C19.rand.seed_forms', dict(fn=fn, n=n, r=r, seed=sd, bitgen=bitgen)
+    # ------------------------------------------------------------------ input FORMS (f4-forms)
+    i_forms = ('list', 'tuple', 'i32', 'u8', 'i8', 'F', 'V', 'ro', 'i32+F', 'u8+V+ro')
+    v_forms = ('py', 'np64', 'np32', '0d')
+    vals = (2.0, -3.0, 0.375, -5.25e3, 3, -2, 0.0, 1e-300, 1e-16, -1e150)
+    j = 0
+    for n in ([2, 3], [3, 1, 2], [2, 2, 2, 2]) + (([4, 1], [2, 3, 4], [2] * 5) if big else ()):
+        for fn in ('const', 'delta'):
+            for iform in i_forms:
+                for vform in v_forms:
+                    j += 1
+                    if not big and j % 2:
+                        continue
+                    yield 'C19.input_form.const_delta', dict(fn=fn, n=n, v=vals[j % len(vals)], nform=N_FORMS[j % len(N_FORMS)], vform=vform,
+                                                             iform=iform, seed=j)
+            for iform in ('list', 'tuple', 'i32', 'i8', 'i64'):
+                j += 1
+                yield 'C19.input_form.const_delta', dict(fn='delta', n=n, v=vals[j % 6], nform=N_FORMS[j % len(N_FORMS)], vform=v_forms[j % 4],
+                                                         iform=iform, seed=j, negative=True)
+    for n in ([200, 3], [3, 300], [130, 2, 129]):     # mode sizes beyond int8 / uint8 with int8 / uint8 / int32 index arrays
+        for iform, negative in (('i8', True), ('i8', False), ('u8', False), ('i32', True), ('u8+V+ro', False)):
+            j += 1
+            yield 'C19.input_form.const_delta', dict(fn='delta', n=n, v=vals[j % 6], nform=N_FORMS[j % len(N_FORMS)], vform=v_forms[j % 4],
+                                                     iform=iform, seed=j, negative=negative)
+    j = 0
+    for n in ([2, 2], [3, 2, 4], [2, 2, 2, 2]):
+        d = len(n)
+        for shift in (1, -1.25, [float(x) for x in range(d)], [0.25 * x - 0.5 for x in range(d)], [-(x % 3) for x in range(d)]):
+            for sform in ('tuple', 'i64', 'i32', 'f32', 'npscalars', 'np64scalar', 'V_ro', 'plain'):
+                j += 1
+                if not big and j % 2:
+                    continue
+                yield 'C19.input_form.poly', dict(n=n, shift=shift, power=1 + j % 4, scale=(1.0, -3, 0.5, 2)[j % 4], nform=N_FORMS[j % len(N_FORMS)],
+                                                  sform=sform, pform=('py', 'np64', 'np32', 'float')[(j // 2) % 4], cform=v_forms[(j // 3) % 4])
+    for n in ([3, 2], [2, 3, 2]):                     # float32 shift arrays whose values are no short dyadic numbers (image = the float32 values)
+        for power in (1, 3, 4):
+            yield 'C19.input_form.poly', dict(n=n, shift=[0.1 * (x + 1) for x in range(len(n))], power=power, scale=0.3, nform='tuple', sform='f32',
+                                              pform=('py', 'np64')[power % 2], cform='np64')
+    j = 0
+    for n, r in (([4, 3, 5], 3), ([4, 3, 5], [1, 2, 4, 1]), ([2, 2], 2), ([6, 6, 6, 6], [1, 5, 7, 5, 1]), ([3] * 7, 2)):
+        for fn in ('rand', 'rand_norm', 'rand_stab', 'rand_custom'):
+            for rform in (('tuple', 'i32array', 'array', 'npints') if isinstance(r, list) else ('float', 'np64float', 'int')):
+                for numform in ('int', 'np32', 'np64', '0d', 'py'):
+                    j += 1
+                    if not big and j % 3:
+                        continue
+                    yield 'C19.input_form.rand', dict(fn=fn, n=n, r=r, nform=N_FORMS[j % len(N_FORMS)], rform=rform, numform=numform,
+                                                      seed=j, posseed=bool((j // 3) % 2))
+    j = 0
+    for q in (1, 3, 6, 7, 9, 14, 20, 30, 31, 40, 62):
+        for iform in ('i64', 'i32', 'i16', 'i8', 'u8', 'u16', '0d', 'py'):
+            j += 1
+            qform = ('py', 'np64', 'np32')[j % 3]
+            yield 'C19.input_form.qtt_delta', dict(q=q, v=(2.5, -3, 1.0, -0.375)[j % 4], qform=qform if q <= 30 or qform != 'np32' else 'np64', iform=iform,
+                                                   vform=v_forms[(j // 2) % 4], seed=j)
+    # DOUBTFUL (disabled): a NEGATIVE position in a NumPy integer type that cannot hold 2^q (np.int8 for q >= 7, np.int32 for q >= 31,
+    # np.int64 for q >= 63): _vector_index_prepare forms `n + i` / `i >= n` with the Python integer n = 2^q, which NumPy 2 refuses
+    # (OverflowError: Python integer 8589934592 out of bounds for int32), e.g. teneva.vector_delta(33, np.int32(-3)).  The position itself
+    # is an ordinary index; int(i) inside _vector_index_prepare would accept it.  Recorded, not counted.
+    # Likewise q itself as a NumPy integer that cannot hold 2^q (np.int32(q) for q >= 31, np.int64(q) for q >= 63, np.uint8(q) for any q: `1 << q`
+    # wraps round silently and EVERY position is rejected with 'Incorrect index', e.g. teneva.vector_delta(np.int32(40), 5)).
+    # possible defects (fail on the pinned tree): NumPy scalars rejected by isinstance(., (int, float)) gates
+    for fn in ('rand', 'rand_norm', 'rand_stab', 'rand_custom'):
+        for rform in ('np64', 'np32') + (('npf32', '0d') if big else ()):
+            yield 'C19.rand.rank_numpy_scalar', dict(fn=fn, n=[4, 3, 5], r=3, rform=rform)
+    for fn in ('rand', 'rand_norm', 'rand_stab'):
+        for sform in ('np64', 'np32'):
+            yield 'C19.rand.seed_numpy_int', dict(fn=fn, n=[4, 3, 5], r=3, seed=7, sform=sform)
+    for sform in ('np64', 'npf32') + (('np32', '0d') if big else ()):
+        yield 'C19.poly.shift_numpy_scalar', dict(n=[3, 2, 4], shift=1 if sform != 'npf32' else 1.5, sform=sform)
     for which in ('const', 'const_zero', 'delta', 'poly', 'poly_shift', 'poly_shift_power', 'rand', 'rand_norm',
                   'rand_custom', 'rand_stab', 'vector_delta', 'matrix_delta'):
         yield 'C19.defaults', dict(which=which, seed=rs())
